@@ -1,6 +1,6 @@
 """bin/check selftest [model|binding]: demonstrates that the machinery is bound to what it claims.
 
- model   : for every defect switch (Bugs = {D1}, {D2}, {D3}, {D6}, {D7}) TLC must FIND a violation of the matching invariant in the bounded
+ model   : for every defect switch (Bugs = {D1}, {D2}, {D3}, {D6}, {D7}, {D10}, {D11}) TLC must FIND a violation of the matching invariant in the bounded
            specification (each invariant is non-vacuous and each repaired defect is documented at design level); with Bugs = {} the same
            configuration holds.
  binding : a recorded real-code trace is corrupted in one field (a balance, an ok flag, a gas figure, a parser report) or loses one step;
@@ -17,6 +17,8 @@ BUG_CASES = [
     ("D3", M("ESDTNFTTransfer,MultiESDTNFTTransfer,create", supply=2), "InvConservation|InvWellFormed|InvNoViol"),
     ("D6", M("kv", gas=(0, 5, 1000)), "InvNoViol"),
     ("D7", M("ESDTTransfer,issue,MultiESDTNFTTransfer", hs=("u0a", "u1a", "c1a")), "InvNoViol"),
+    ("D10", M("ESDTTransfer,issue,MultiESDTNFTTransfer,flags", hs=("u0a", "u0b"), supply=3), "InvNoViol"),
+    ("D11", M("ESDTTransfer,issue,MultiESDTNFTTransfer,flags", hs=("u0a", "u0b"), supply=3), "InvNoViol"),
 ]
 
 
